@@ -6,7 +6,7 @@
 # VERIF_SEED is passed through. Development aid only (no registered command uses it); remove /tmp/lab and the worktree when done.
 set -u
 PATCH="$1"; ID="$2"; TIER="${3:-quick}"
-WT=/tmp/confirm
+WT="${LAB_WT:-/tmp/confirm}"
 LAB=/tmp/lab
 [ -d "$WT" ] || git -C /repo worktree add --detach "$WT" HEAD >/dev/null
 git -C "$WT" checkout -q --detach "$(git -C /repo rev-parse HEAD)" && git -C "$WT" checkout -- . 
